@@ -1,0 +1,15 @@
+//go:build verif
+
+package sshsb
+
+import (
+	"io"
+
+	"github.com/goatcms/goatcore/app/modules/commonm/commservices"
+)
+
+// VerifInitSequence exposes the start-up script builder of the SSH sandbox to the
+// verification harness (build tag verif only). It calls the private builder unchanged.
+func VerifInitSequence(entrypoint string, envs commservices.Environments) (io.Reader, error) {
+	return (&SSHSandbox{entrypoint: entrypoint}).initSequence(envs)
+}
